@@ -5,6 +5,7 @@ import (
 	"fmt"
 
 	"go.lstv.dev/util/roman"
+	"verif/libdefaults"
 	"verif/mc"
 	"verif/oracle"
 )
@@ -12,8 +13,8 @@ import (
 type arg struct {
 	N      uint64 `json:"n"`
 	Flags  int    `json:"flags"`
-	DefFmt int    `json:"default_format"` // roman.DefaultFormat for this phase
-	Via    string `json:"via"`            // "formatter" or "methods"
+	DefFmt int    `json:"default_format"`             // roman.DefaultFormat for this phase
+	Via    string `json:"via"`                        // "formatter" or "methods"
 	Max    *int   `json:"max_input_length,omitempty"` // nil = default 128
 }
 
@@ -21,10 +22,7 @@ var maxLen = 128 // MaxInputLength of the current phase (read by back)
 
 func reset() {
 	maxLen = 128
-	roman.DefaultFormat = 0
-	roman.MaxInputLength = 128
-	roman.Formatter = roman.DefaultFormatter
-	roman.Parser = roman.DefaultParser[[]byte]
+	libdefaults.Roman()
 }
 func setup(a arg) {
 	roman.DefaultFormat = roman.Format(a.DefFmt)
@@ -33,6 +31,9 @@ func setup(a arg) {
 		maxLen = *a.Max
 	}
 	roman.MaxInputLength = maxLen
+	if a.Max == nil { // default configuration: whatever the library starts with (the oracle assumes the documented 128)
+		roman.MaxInputLength = libdefaults.RomanMaxInputLength
+	}
 }
 
 func back(text string, n uint64, what string) (string, string) {
